@@ -251,7 +251,7 @@ def sh5(prog):
                     nm = [z[1].name for z in mir.subterms(a) if mir.is_call(z) and z[1].name.startswith(("low", "high"))]
                     which = "low" if nm and nm[0].startswith("low") else ("high" if nm else None)
         if lpol is None or which is None:
-            errs.append("And node shape not recognised: %s" % show(t)[:80])
+            errs.append("?And node shape not recognised: %s" % show(t)[:80])
         elif (lpol == "1") != (which == "high"):
             errs.append("the %s literal is paired with the %s child" % ("positive" if lpol == "1" else "negative", which))
     out.append(inst("SH", "%s:SH5:literal-child-pairing" % fn.npath, VIOLATION if errs else OK, fn, None,
@@ -276,7 +276,7 @@ def sh5(prog):
                 if not (ln[0].startswith("low") and hn[0].startswith("high")):
                     errs.append("callback receives (var, value of %s, value of %s)" % (ln[0], hn[0]))
     if not ok:
-        errs.append("callback application not recognised")
+        errs.append("?callback application not recognised")
     out.append(inst("SH", "%s:SH5:callback-order" % fn.npath, VIOLATION if errs else OK, fn, None,
                     "; ".join(errs) if errs else "f(var, value of low, value of high)"))
     # SDD fold closure: And(rec(prime(e)), rec(sub(e))) of one element
